@@ -128,6 +128,21 @@ Fixpoint run_ops (ops : list op) (s : logger) : outcome :=
   | o :: r => match step o s with Ok s' => run_ops r s' | bad => bad end
   end.
 
+(** The same, also reporting the last state reached, how many operations ran, and why it stopped
+    (used by the extracted driver; the real library is stopped at the same point). *)
+Inductive status := StOk | StThrows | StUndefined.
+
+Fixpoint run_ops_upto (ops : list op) (s : logger) (n : nat) : logger * nat * status :=
+  match ops with
+  | [] => (s, n, StOk)
+  | o :: r =>
+    match step o s with
+    | Ok s' => run_ops_upto r s' (S n)
+    | ThrowsOutOfRange => (s, n, StThrows)
+    | UndefinedBehaviour => (s, n, StUndefined)
+    end
+  end.
+
 (** Does removeError(i) remove the last issue of the list?  (the condition under which it is safe) *)
 Definition removal_is_last (i : nat) (s : logger) : bool :=
   match nth_error (errs s) i with Some p => S p =? length (issues s) | None => false end.
